@@ -477,6 +477,9 @@ class Unknown(Exception):
     pass
 
 
+KNOWN_CALLS = {}
+
+
 class EvalPanic(Exception):
     """the std operation itself panics for these operands (division by zero, MIN rem -1, ...)"""
 
@@ -491,6 +494,8 @@ def ceval(ex, t, env):
         if v is None:
             raise Unknown('const')
         return (t[1], v)
+    if tag == 'call' and not t[2] and cpath(ex, t).split('::')[-1] in KNOWN_CALLS:
+        return KNOWN_CALLS[cpath(ex, t).split('::')[-1]]
     if tag == 'cast':
         ty, a = t[2], ceval(ex, t[3], env)
         k = t[1]
@@ -609,6 +614,10 @@ def ceval(ex, t, env):
     raise Unknown(tag)
 
 
+# zero-argument functions of the corpus prelude written as bounds (`less = limf_f64()`): what they return is the corpus's
+# own text, recorded with the declaration; set per declaration by the float rule
+
+
 def ieval(ex, t, var, vty, vlo, vhi):
     """interval evaluation (closed interval, both ends attained or over-approximated) of a scalar term
     that depends on `var` only; every supported operation is monotone and correctly rounded, so the
@@ -677,6 +686,9 @@ def ieval(ex, t, var, vty, vlo, vhi):
         a = ieval(ex, strip_view(ex, t[2][0]), var, vty, vlo, vhi)
         lo = 0.0 if a[1] <= 0 <= a[2] else min(abs(a[1]), abs(a[2]))
         return (a[0], lo, max(abs(a[1]), abs(a[2])))
+    if tag == 'call' and not t[2] and cpath(ex, t).split('::')[-1] in KNOWN_CALLS:
+        ty_, v_ = KNOWN_CALLS[cpath(ex, t).split('::')[-1]]
+        return (ty_, v_, v_)
     raise Unknown(tag)
 
 
@@ -848,6 +860,10 @@ def check_arbitrary_float(rep, g):
     G, c = fd
     var = ('field', ('downcast', G, 0, 'Ok'), 0)
     ty, samples = draw_samples(g.F, c)
+    KNOWN_CALLS.clear()
+    for v in d['validators']:
+        if v.get('form') == 'call' and isinstance(v.get('value'), (int, float)) and v.get('text', '').endswith('()'):
+            KNOWN_CALLS[v['text'][:-2].split('::')[-1]] = (d['inner'], fval(d['inner'], float(v['value'])))
     nrows = 0
     for o in outs:
         if o.kind != 'diverge':
@@ -900,47 +916,53 @@ def check_arbitrary_float(rep, g):
                 for t in walk(cn):
                     if t[0] == 'call' and cname(ex, t) in ('from_be_bytes', 'from_ne_bytes'):
                         leaves.add(t)
-            row_var, row_ty = var, ty
+            # candidates for the interval variable: the first draw, or one of the opaque floats rebuilt from mutated bytes
+            # (a row may mention two of them - the rejected `from_be_bytes` and the accepted `from_ne_bytes`); an attempt
+            # that proves some condition impossible is a proof on its own, conditions over other leaves are skipped
+            cands_ = [(var, ty)] + [(lf, d['inner']) for lf in sorted(leaves, key=str)]
             if len(leaves) == 1:
-                row_var, row_ty = next(iter(leaves)), d['inner']
-            try:
-                var_, ty_ = row_var, row_ty
-                if ty_ in sym.INT_TYPES:
-                    vlo, vhi = (0, (1 << sym.INT_TYPES[ty_]) - 1) if ty_[0] == 'u' else (-(1 << (sym.INT_TYPES[ty_] - 1)), (1 << (sym.INT_TYPES[ty_] - 1)) - 1)
-                    notnan = True
-                    ref = refine_int_draw(ex, o.conds, var_, ty_, vlo, vhi)
-                    if ref is None:
-                        proved = True
-                        notnan = False
-                        why = None
-                    else:
-                        vlo, vhi = ref
-                else:
-                    vlo, vhi = float('-inf'), float('inf')
-                    notnan = any(cn[0] == 'call' and cpath(ex, cn).endswith('>::is_nan') and strip_view(ex, cn[2][0]) == var_ and not truth(v)
-                                 or (cn[0] == 'un' and cn[1] == 'Not' and cn[2][0] == 'call' and cpath(ex, cn[2]).endswith('>::is_nan')
-                                     and strip_view(ex, cn[2][2][0]) == var_ and truth(v))
-                                 for cn, v in o.conds)
-                    finite = any(cn[0] == 'call' and cpath(ex, cn).endswith('>::is_finite') and strip_view(ex, cn[2][0]) == var_ and truth(v)
-                                 for cn, v in o.conds)
-                    if finite:
+                cands_ = [(next(iter(leaves)), d['inner'])]
+            for (row_var, row_ty) in cands_:
+                if proved:
+                    break
+                try:
+                    var_, ty_ = row_var, row_ty
+                    if ty_ in sym.INT_TYPES:
+                        vlo, vhi = (0, (1 << sym.INT_TYPES[ty_]) - 1) if ty_[0] == 'u' else (-(1 << (sym.INT_TYPES[ty_] - 1)), (1 << (sym.INT_TYPES[ty_] - 1)) - 1)
                         notnan = True
-                        mx = 3.4028234663852886e38 if ty_ == 'f32' else 1.7976931348623157e308
-                        vlo, vhi = -mx, mx
-                if notnan:
-                    for cn, v in o.conds:
-                        if cn[0] == 'discr':
-                            continue
-                        try:
-                            if not cond_possible(ex, cn, v, var_, ty_, vlo, vhi):
-                                proved = True
-                                break
-                        except Unknown as e:
-                            why = why or str(e)
-                else:
-                    why = why or 'draw may be NaN on this path'
-            except Unknown as e:
-                why = str(e)
+                        ref = refine_int_draw(ex, o.conds, var_, ty_, vlo, vhi)
+                        if ref is None:
+                            proved = True
+                            notnan = False
+                            why = None
+                        else:
+                            vlo, vhi = ref
+                    else:
+                        vlo, vhi = float('-inf'), float('inf')
+                        notnan = any(cn[0] == 'call' and cpath(ex, cn).endswith('>::is_nan') and strip_view(ex, cn[2][0]) == var_ and not truth(v)
+                                     or (cn[0] == 'un' and cn[1] == 'Not' and cn[2][0] == 'call' and cpath(ex, cn[2]).endswith('>::is_nan')
+                                         and strip_view(ex, cn[2][2][0]) == var_ and truth(v))
+                                     for cn, v in o.conds)
+                        finite = any(cn[0] == 'call' and cpath(ex, cn).endswith('>::is_finite') and strip_view(ex, cn[2][0]) == var_ and truth(v)
+                                     for cn, v in o.conds)
+                        if finite:
+                            notnan = True
+                            mx = 3.4028234663852886e38 if ty_ == 'f32' else 1.7976931348623157e308
+                            vlo, vhi = -mx, mx
+                    if notnan:
+                        for cn, v in o.conds:
+                            if cn[0] == 'discr':
+                                continue
+                            try:
+                                if not cond_possible(ex, cn, v, var_, ty_, vlo, vhi):
+                                    proved = True
+                                    break
+                            except Unknown as e:
+                                why = why or str(e)
+                    else:
+                        why = why or 'draw may be NaN on this path'
+                except Unknown as e:
+                    why = str(e)
             rep.ob('R-ARB-FLT', True if proved else None, g,
                    'panic path of arbitrary is unreachable: one of its conditions cannot hold for any draw (interval evaluation)',
                    {'why': why, 'conds': [(show(cn)[:160], str(v)) for cn, v in o.conds][-3:]})
